@@ -1236,9 +1236,9 @@ def cases(rng, tier):
     elif tier == "thorough":
         specs = _doc_specs(rng, names, 300, 1200, 2000) + _syn_specs(rng, 500, 4)
     else:  # search: oracle only
-        return [{"kind": "order"}] + _doc_specs(rng, names, 60, 500, 900)
+        return [{"kind": "order"}, {"kind": "aliases"}] + _doc_specs(rng, names, 60, 500, 900)
     _js_batch(specs)
-    return [{"kind": "order"}] + specs
+    return [{"kind": "order"}, {"kind": "aliases"}] + specs
 
 
 def run_impl(spec) -> str:
@@ -1324,6 +1324,8 @@ def oracle(spec) -> list[Failure]:
     if kind == "files":
         f = _files_failure()
         return [f] if f else []
+    if kind == "aliases":
+        return _alias_failures()
     if kind == "order":
         r = reordered()
         if "error" in r:
@@ -1339,6 +1341,52 @@ def oracle(spec) -> list[Failure]:
                                 f"{json.dumps(d[2])[:160]} (each root configured after the other one)")]
         return []
     return []
+
+
+def _alias_failures():
+    """Same fields: the member names the decoder reads for a model field (field name, alias, every choice of a
+    validation alias) are exactly the property the schema generated from that model shows for it."""
+    import importlib
+    import inspect
+
+    import pydantic
+
+    fails = []
+    seen = set()
+    for m in ("tys", "ops", "serial_hugr", "extension", "testing_hugr"):
+        mod = importlib.import_module("hugr._serialization." + m)
+        for _, c in inspect.getmembers(mod, inspect.isclass):
+            if not (issubclass(c, pydantic.BaseModel) and c.__module__.startswith("hugr._serialization")) or c in seen:
+                continue
+            seen.add(c)
+            if issubclass(c, pydantic.RootModel):
+                continue
+            try:
+                sch = c.model_json_schema(mode="validation")
+                if "properties" not in sch and "$ref" in sch:  # recursive models are emitted as a reference
+                    sch = sch.get("$defs", {}).get(sch["$ref"].rsplit("/", 1)[-1], {})
+                if "properties" not in sch:
+                    continue
+                props = set(sch["properties"])
+            except Exception:  # noqa: BLE001
+                continue
+            for fname, f in c.model_fields.items():
+                va = f.validation_alias
+                if va is None:
+                    keys = {f.alias or fname}
+                elif isinstance(va, str):
+                    keys = {va}
+                elif isinstance(va, pydantic.AliasChoices):
+                    keys = {ch if isinstance(ch, str) else str(ch.path[0]) for ch in va.choices}
+                else:  # AliasPath
+                    keys = {str(va.path[0])}
+                if c.model_config.get("populate_by_name") or c.model_config.get("validate_by_name"):
+                    keys.add(fname)
+                shown = keys & props
+                if len(shown) != 1 or keys - props:
+                    fails.append(Failure(f"{c.__module__.split('.')[-1]}.{c.__name__}.{fname}", "decoder-reads-members-the-schema-does-not-define",
+                                         f"decoder reads {sorted(keys)}, schema properties {sorted(keys & props)}"))
+    return fails[:3]
 
 
 def _files_failure():
